@@ -265,6 +265,7 @@ func (rw *rewriter) stmt(s ast.Stmt) []ast.Stmt {
 			rw.funcLits(st.Init)
 		}
 		rw.funcLits(st.Cond)
+		st.Cond = rw.recvs(st.Cond)
 		rw.block(st.Body)
 		if st.Else != nil {
 			r := rw.stmt(st.Else)
@@ -283,6 +284,7 @@ func (rw *rewriter) stmt(s ast.Stmt) []ast.Stmt {
 		rw.funcLits(st.X)
 		rw.block(st.Body)
 	case *ast.SwitchStmt:
+		st.Tag = rw.recvs(st.Tag)
 		for _, c := range st.Body.List {
 			cc := c.(*ast.CaseClause)
 			cc.Body = rw.stmts(cc.Body)
@@ -330,24 +332,32 @@ func (rw *rewriter) stmt(s ast.Stmt) []ast.Stmt {
 			return rw.selectStmt(&ast.SelectStmt{Body: &ast.BlockStmt{List: []ast.Stmt{&ast.CommClause{Comm: st}}}})
 		}
 		rw.funcLits(st.X)
+		st.X = rw.recvs(st.X)
 	case *ast.AssignStmt:
 		if len(st.Rhs) == 1 {
 			if u, ok := st.Rhs[0].(*ast.UnaryExpr); ok && u.Op == token.ARROW {
-				if st.Tok == token.DEFINE {
-					problem(rw.fset, st.Pos(), "`v := <-ch` as a statement (declares a variable in the enclosing scope)")
+				if st.Tok == token.DEFINE || len(st.Lhs) == 2 {
+					// `v := <-ch`, `v, ok := <-ch`, `v, ok = <-ch`: the managed receive as a call
+					rw.needDet = true
+					rw.nsel++
+					fn := "Recv"
+					if len(st.Lhs) == 2 {
+						fn = "Recv2"
+					}
+					st.Rhs[0] = &ast.CallExpr{Fun: det(fn), Args: []ast.Expr{rw.recvs(u.X)}}
 					return []ast.Stmt{s}
 				}
 				return rw.selectStmt(&ast.SelectStmt{Body: &ast.BlockStmt{List: []ast.Stmt{&ast.CommClause{Comm: st}}}})
 			}
 		}
-		for _, r := range st.Rhs {
+		for i, r := range st.Rhs {
 			rw.funcLits(r)
-			rw.noRecv(r)
+			st.Rhs[i] = rw.recvs(r)
 		}
 	case *ast.ReturnStmt:
-		for _, r := range st.Results {
+		for i, r := range st.Results {
 			rw.funcLits(r)
-			rw.noRecv(r)
+			st.Results[i] = rw.recvs(r)
 		}
 	case *ast.DeclStmt:
 		rw.funcLits(st)
@@ -357,17 +367,47 @@ func (rw *rewriter) stmt(s ast.Stmt) []ast.Stmt {
 
 func isChanRangeCandidate(*ast.RangeStmt) bool { return false }
 
-// noRecv flags receive expressions buried inside larger expressions.
-func (rw *rewriter) noRecv(e ast.Expr) {
-	ast.Inspect(e, func(n ast.Node) bool {
-		if _, ok := n.(*ast.FuncLit); ok {
-			return false
+// recvs returns e with every receive expression inside it (`<-ch` as an operand, an argument, a result)
+// replaced by the managed detsync.Recv(ch); function literals are left alone (their bodies are rewritten as
+// blocks of their own).
+func (rw *rewriter) recvs(e ast.Expr) ast.Expr {
+	switch x := e.(type) {
+	case nil:
+		return nil
+	case *ast.UnaryExpr:
+		x.X = rw.recvs(x.X)
+		if x.Op == token.ARROW {
+			rw.needDet = true
+			rw.nsel++
+			return &ast.CallExpr{Fun: det("Recv"), Args: []ast.Expr{x.X}}
 		}
-		if u, ok := n.(*ast.UnaryExpr); ok && u.Op == token.ARROW {
-			problem(rw.fset, u.Pos(), "receive expression inside a larger expression")
+	case *ast.BinaryExpr:
+		x.X, x.Y = rw.recvs(x.X), rw.recvs(x.Y)
+	case *ast.ParenExpr:
+		x.X = rw.recvs(x.X)
+	case *ast.CallExpr:
+		x.Fun = rw.recvs(x.Fun)
+		for i := range x.Args {
+			x.Args[i] = rw.recvs(x.Args[i])
 		}
-		return true
-	})
+	case *ast.SelectorExpr:
+		x.X = rw.recvs(x.X)
+	case *ast.IndexExpr:
+		x.X, x.Index = rw.recvs(x.X), rw.recvs(x.Index)
+	case *ast.SliceExpr:
+		x.X, x.Low, x.High, x.Max = rw.recvs(x.X), rw.recvs(x.Low), rw.recvs(x.High), rw.recvs(x.Max)
+	case *ast.StarExpr:
+		x.X = rw.recvs(x.X)
+	case *ast.TypeAssertExpr:
+		x.X = rw.recvs(x.X)
+	case *ast.KeyValueExpr:
+		x.Value = rw.recvs(x.Value)
+	case *ast.CompositeLit:
+		for i := range x.Elts {
+			x.Elts[i] = rw.recvs(x.Elts[i])
+		}
+	}
+	return e
 }
 
 // selectStmt rewrites a blocking select into the polling form:
